@@ -8,6 +8,7 @@ import vlib
 ID = "C20"
 CHECK_MODULE = "Check.C20"
 ORACLE_MODULE = "Check.C20o"
+GEN = [("GenPipe.v", "pipe", ["internal/pipe/pipe.go"])]
 GEN_DEPS = ["GenPipe.v"]
 TARGETS_CHECK = ["theories/Check/C20o.vo", "theories/Check/C20.vo"]
 TARGETS_PROP = ["theories/Properties/C20.vo"]
